@@ -26,3 +26,12 @@ func verifSmokeTime() {
 	vAssert(t0.Before(t) == (ttl > 0), "strictly after iff ttl > 0")
 	vReach("time")
 }
+
+func verifSmokeTLS() {
+	h := vHello{version: 0x0303, random: vBytes(32), sid: vBytes(2), suites: []byte{0x13, 0x01}, comp: []byte{0},
+		exts: []vExt{vSNI([]byte("a.example")), vALPN([][]byte{[]byte("h2")}), vVersions(0x0304)}}
+	ok, sni, alpn := vTLSExtract(h.record())
+	vAssert(ok, "crypto/tls parsed the hello")
+	vAssert(sni == "a.example" && len(alpn) == 1 && alpn[0] == "h2", "crypto/tls extraction")
+	vReach("tls")
+}
